@@ -124,11 +124,11 @@ theorem qrenO_stable {o : LOpts} {m m' : LMap} {into : T} {q : DQuad} (h : QDef 
     simp only [grenO]
     rw [trenO_stable hg e]
 
-theorem quadF_drop {nf : PS → Lbl → PS × T} {gen : Bool} {into : T} {st : PS} {q : DQuad}
+theorem quadF_drop {S : Type} {nf : S → Lbl → S × T} {gen : Bool} {into : T} {st : S} {q : DQuad}
     (h : (!gen && q.2.1.isLab) = true) : quadF nf gen into st q = ((termF nf st q.1).1, none) := by
   simp only [quadF, h, if_true]
 
-theorem quadF_keep {nf : PS → Lbl → PS × T} {gen : Bool} {into : T} {st : PS} {q : DQuad}
+theorem quadF_keep {S : Type} {nf : S → Lbl → S × T} {gen : Bool} {into : T} {st : S} {q : DQuad}
     (h : ¬ (!gen && q.2.1.isLab) = true) : quadF nf gen into st q =
       ((gnameF nf into (termF nf (termF nf (termF nf st q.1).1 q.2.1).1 q.2.2.1).1 q.2.2.2).1,
        some ((termF nf st q.1).2, (termF nf (termF nf st q.1).1 q.2.1).2,
@@ -331,6 +331,7 @@ theorem newAbove_nodeO (o : LOpts) (m0 : LMap) (F : Nat) (st : PS) (l : Lbl) (h 
   | verbatim =>
     cases l with
     | anon n => exact halloc
+    | inner s n => exact halloc
     | named n => exact ⟨Nat.le_trans h.1 (Nat.le_max_left _ _), h.2⟩
 
 theorem parseShared_facts {f0 : Nat} (o : LOpts) (m0 : LMap) (F : Nat) : ∀ (docs : List (T × Doc)) (d : DS) (m : LMap),
